@@ -270,7 +270,8 @@ Lemma ae_commit_ok okr s8 tr8 a T : follower_wf T s8 ->
 Proof.
   intros Hwf. pose proof Hwf as (Ht & Hr & Hs & Hw & Hl). unfold ae_commit.
   destruct ((0 <? aq_commit a) && (v_commit s8 <? aq_commit a)).
-  - cbv zeta.
+  - cbv zeta. destruct (v_commit s8 <? _).
+    2:{ exists s8, tr8. split; [reflexivity|]. split; [exact Hwf|]. split; [reflexivity|lia]. }
     match goal with |- context [process_logs ?S ?I] => set (s10 := S); set (idx := I) end.
     assert (H10 : follower_wf T s10 /\ d_log s10 = d_log s8 /\ v_applied s10 = v_applied s8 /\
                   v_lastLogIdx s10 = v_lastLogIdx s8).
